@@ -108,7 +108,9 @@ def run_groups(chk, exe, groups, module='TV_Cipher', label=''):
     return execs, lines
 
 
-def judge(chk, exe, execs, plan_by_exec, module='TV_Cipher', cost=steps_cost, nontrivial=None, dedupe=False):
+def judge(chk, exe, execs, plan_by_exec, module='TV_Cipher', cost=steps_cost, nontrivial=None, dedupe=False, all_plans=None):
+    if all_plans is None:
+        all_plans = plan_by_exec
     """Validate executions with TLC; confirm each rejection by re-executing that execution; record violations."""
     for ex in execs:
         for ev in ex:
@@ -122,16 +124,28 @@ def judge(chk, exe, execs, plan_by_exec, module='TV_Cipher', cost=steps_cost, no
             continue
         seen.add(xi)
         plan = plan_by_exec(xi)
-        confirmed = True
+        confirmed, note = True, ''
         if plan is not None and len(seen) <= 2:      # confirm the first rejections by re-execution
             ev2, _ = run_driver(exe, plan, timeout=600)
             r2 = validate(chk.wd, module, split_executions(ev2), cost=cost, shards=1)
             if r2['errors']:
                 raise MachineryError("re-validation failed: " + r2['errors'][0][:1000])
             confirmed = len(r2['mismatches']) > 0
+            if not confirmed and all_plans is not None:
+                # not reproducible in a fresh process: does it depend on the calls made earlier in the same process?
+                lines = []
+                for gi in range(xi + 1):
+                    g = all_plans(gi)
+                    if g:
+                        lines.extend(g)
+                ev3, _ = run_driver(exe, lines, timeout=1200)
+                x3 = split_executions(ev3)
+                r3 = validate(chk.wd, module, x3[-1:], cost=cost, shards=1) if x3 else dict(mismatches=[], errors=[])
+                confirmed = len(r3['mismatches']) > 0
+                note = ' (only after the earlier calls of the same process: the result depends on unrelated earlier calls)'
         if not confirmed:
             raise MachineryError(f"rejection of event {ev.get('id')} did not repeat on re-execution (flaky machinery)")
-        chk.violation(f"event {ev.get('id')} ({ev.get('e')}) is not a behaviour of the specification: expected {json.dumps(trim(mm.get('expected'), 40))[:400]}",
+        chk.violation(f"event {ev.get('id')} ({ev.get('e')}) is not a behaviour of the specification{note}: expected {json.dumps(trim(mm.get('expected'), 40))[:400]}",
                       dict(trace_spec=module, plan=plan, event=trim(ev, 80), expected=trim(mm.get('expected'), 80)))
     return res
 
@@ -338,18 +352,21 @@ def tamper_part(chk, exe, mode):
             continue
         d, c, t = base[key], pk[key], sh['tam']
         mlen, alen = sh['mlen'], sh['adlen']
+        long_ = mlen > 100 or alen > 100
+        if long_ and (sh['alias'] or (not chk.thorough and t in (4, 5, 7))):
+            continue                         # long packets: separate buffers, the tamper classes that involve the length
         g = []
         sid = f"{sh['v']}-{alen}-{mlen}-{sh['alias']}-t{t}"
         budget = 8 if (sh['alias'] or not chk.thorough and mlen > 13) else 10 ** 6
 
         def bits(nbits):
-            return list(range(nbits)) if nbits <= budget else r.sample(range(nbits), 8)
+            return list(range(nbits)) if nbits <= budget else r.sample(range(nbits), 3 if long_ else 8)
         if t == 1:
             for b in bits(8 * mlen):
                 g.append(dec_line(f"{sid}-body{b}", mode, sh, d, flip(c, b)))
         elif t == 2:
             if mode == 'siv':
-                for b in (range(64) if (mlen in (4, 13) and not sh['alias']) else r.sample(range(64), 6)):
+                for b in (range(64) if (mlen in (4, 13) and not sh['alias']) else r.sample(range(64), 2 if long_ else 6)):
                     g.append(dec_line(f"{sid}-tag{b}", mode, sh, d, flip(c, 8 * mlen + b)))
             else:
                 g.append(f"packet id={sid}-pk k={hx(d['k'])} n={hx(d['n'])} ad={hx(d['ad'])} body={hx(c[:mlen])}")
@@ -400,6 +417,10 @@ def tamper_part(chk, exe, mode):
             if mlen >= 1:
                 g.append(dec_line(f"{sid}-shift-m2ad", mode, sh, dict(d, ad=d['ad'] + c[:1]), c[1:]))
             g.append(dec_line(f"{sid}-valid", mode, sh, d, c))
+            if not sh['alias']:
+                g.append(dec_line(f"{sid}-valid-adj1", mode, sh, d, c) + " adj=1")
+                g.append(dec_line(f"{sid}-valid-adj2", mode, sh, d, c) + " adj=2")
+                g.append(dec_line(f"{sid}-bad-adj1", mode, sh, d, flip(c, 8 * mlen + 9)) + " adj=1")
         elif t == 9:
             for cl in range(8):
                 g.append(dec_line(f"{sid}-clen{cl}", mode, sh, d, c[:cl] if cl <= len(c) else c + bytes(cl - len(c)),
@@ -415,7 +436,7 @@ def tamper_part(chk, exe, mode):
     nacc = sum(1 for ex in execs for e in ex if e.get('e') in ('Dec', 'DecTag') and e.get('res') == 0)
     chk.cov['tamper_events_rejected_by_impl'] = chk.cov.get('tamper_events_rejected_by_impl', 0) + nrej
     chk.cov['untampered_accepted_by_impl'] = chk.cov.get('untampered_accepted_by_impl', 0) + nacc
-    if nrej == 0 or nacc == 0:
+    if (nrej == 0 or nacc == 0) and not chk.violations:
         raise MachineryError("vacuous tamper run: no rejected or no accepted packet")
     for ex in execs[:1]:
         for ev in ex[1:3]:
@@ -451,6 +472,14 @@ def check_C03(chk):
     chk.sample(execs[0][1])
     # (C) tampered packets through the real decrypt functions
     tamper_part(chk, exe, 'aead')
+    if chk.thorough:
+        # associated data of 4 GiB + 5 bytes must not be taken for 5 bytes (about a minute each, run side by side)
+        huge = [f"enchuge id=hugead-{v}-{n} mode=aead v={v} adlen={n}" for v in (128, 192, 256) for n in (5, (1 << 32) + 5)]
+        with ThreadPoolExecutor(6) as ex:
+            hres = list(ex.map(lambda ln: run_driver(exe, [ln], timeout=3000)[0], huge))
+        hx_ = [[{"e": "Reset", "id": "huge"}] + [e for r_ in hres for e in r_]]
+        judge(chk, exe, hx_, lambda xi: None, cost=lambda e: 1)
+        chk.cov['huge_ad_packets'] = len(huge)
     chk.finish(
         rule="MC_CheckTag: TLC exhaustive over difference patterns (every subset of positions x values, every single-byte "
              "difference, the fold for all 256 accumulator values) shows the byte-serial algorithm = accept-iff-equal; every "
